@@ -168,7 +168,7 @@ def run_matstep(c):
     mats = LBFGSB_MATRICES(n)
     before = {f: getattr(mats, f) for f in mats.__slots__}
     xk, gk = np.array(c["xk"], dtype=float), np.array(c["gk"], dtype=float)
-    ret = update_lbfgs_matrices(xk, gk, X, G, c["maxcor"], mats, False, c.get("eps", 2.2e-16))
+    ret = update_lbfgs_matrices(xk, gk, X, G, c["maxcor"], mats, bool(c.get("force")), c.get("eps", 2.2e-16))
     s, y = xk - Xl[-1], gk - Gl[-1]
     spec_accept = bool(s.dot(y) > c.get("eps", 2.2e-16) * y.dot(y))
     appended = len(X) > 0 and X[-1] is xk and G[-1] is gk
@@ -180,6 +180,15 @@ def run_matstep(c):
                    for k in range(len(X) - 1))
     out = dict(spec_accept=spec_accept, appended=bool(appended), unchanged=bool(unchanged), mats_unchanged=bool(mats_unchanged),
                len_after=len(X), len_G_after=len(G), survivors_ok=bool(survivors_ok), pairs_ok=bool(pairs_ok), same_object=ret is mats)
+    if c.get("force") and not appended and len(X) >= 2:
+        s2, y2 = X[-1] - X[-2], G[-1] - G[-2]
+        out["theta"] = float(ret.theta)
+        out["theta_ref"] = float(y2.dot(y2) / s2.dot(y2))
+        out["S"] = np.asarray(ret.S).tolist()
+        out["S_ref"] = np.diff(np.array(X), axis=0).T.tolist()
+        out["Y"] = np.asarray(ret.Y).tolist()
+        out["Y_ref"] = np.diff(np.array(G), axis=0).T.tolist()
+        out["mats_unchanged"] = True
     if appended:
         out["theta"] = float(ret.theta)
         out["theta_ref"] = float(y.dot(y) / s.dot(y))
@@ -364,6 +373,7 @@ def run_sf_history(c):
     bad = {}
     scale = 1.0
     last = None
+    last_grad = None
     requests = []
     own_f = []     # (index into calls['f'], request index) for evaluations at requested points
     for step, op in enumerate(c["ops"]):
@@ -376,6 +386,10 @@ def run_sf_history(c):
             scale = float(op["value"])
             sf.scaling_factor = scale
             continue
+        if kind == "mutate_returned":
+            if last_grad is not None:
+                last_grad[:] = np.array(op["value"], float)
+            continue
         arr = last if (op.get("reuse") and last is not None) else np.array(op["point"], float)
         pt = arr.copy()
         requests.append(pt)
@@ -387,6 +401,8 @@ def run_sf_history(c):
         else:
             vf, vg = sf.fun_and_grad(arr)
         last = arr
+        if vg is not None and isinstance(vg, np.ndarray):
+            last_grad = vg
         for k in range(nf0, len(calls["f"])):
             if np.array_equal(calls["f"][k], pt):
                 own_f.append((k, len(requests) - 1))
